@@ -13,6 +13,7 @@ Reason(e) ==
          ELSE IF ~e.twin_equal THEN "output_depends_on_overwritten_input"
          ELSE ""
     [] e.ev = "reread" -> IF \E i \in 1..Len(e.unchanged) : ~e.unchanged[i] THEN "returned_fragment_aliases_input" ELSE ""
+    [] e.ev = "callerwrite" -> IF ~e.others_unchanged THEN "returned_fragments_share_memory" ELSE ""      \* the caller appended to one fragment and wrote over another
     [] OTHER -> "unknown_event"
 Init == l = 1 /\ st = FALSE
 Next ==
